@@ -180,4 +180,9 @@ def from_smt(ob, replay_fn=None):
             r.replay = (ob.replay or replay_fn)(ob)
         except Exception as e:  # replay trouble must not mask the refutation
             r.replay = {"reproduced": False, "error": repr(e)}
+    if r.status == "refuted" and getattr(ob, "havoc", False) and not (r.replay and r.replay.get("reproduced")):
+        # the slice was evaluated in tolerant mode and the refuting model involves a value the evaluator replaced by an unconstrained
+        # one: the model may be spurious, so it counts only if it replays on the real code. Otherwise: undecided, never an alarm.
+        r.status = "undecided"
+        r.detail = "refuting model involves havoc'd (unmodelled) values and did not replay on the real code\n" + (r.detail or "")
     return r
